@@ -288,6 +288,7 @@ func ruleC07(w *World, r *Report) {
 	r.Explanation = "R07.1 must-lockset on FTEIDGenerator.offset/usedMap (exclusive, own object), balanced methods, atomic sections; R07.2 interval invariant of the cursor: starting from the constructor's 0, the least interval closed under every public writer is computed (uint32 semantics, widening to the type range) and under it offset+minValue is shown to stay in [1, 2^32-1] without wrapping; R07.3 Allocate marks exactly the offset it found free, returns that offset+minValue, fails only after a full cycle; FreeID/IsAllocated undo the same encoding under an id ≥ minValue guard; " +
 		"R07.4 the generator object and its used-set are assigned only at construction (never replaced), releases go to the generator that allocated; R07.5 NewPFCPSession: the candidate drawn from the connection's own generator is rejected when 0 or when GetSession(candidate) finds it, the session is created with that same value, the loop is bounded and failure is reported; establishment refuses on failure; the store is keyed by localSEID; " +
 		"R07.6 reported = programmed: the value returned by Allocate is stored in the PDR that is both kept in the session and reported (Created PDR built from pdr.tunnelTEID); every handler that creates PDRs serves the CHOOSE flag."
+	r.Explanation += " R07.7 (cont.) FreeID in releaseAllocatedTEIDs only under pdr.UPAllocateFteid; R07.8 the bytes written to match fields and action parameters are the converter's output, at most stripped of leading zeros."
 	r.NotDecided = "uniqueness over the whole history as such (it follows from R07.1–R07.4 by induction on the used-set, not mechanised); quality of the random source"
 
 	gen := map[string]bool{"offset": true, "usedMap": true}
@@ -408,6 +409,7 @@ func ruleC07(w *World, r *Report) {
 
 	ruleC07Allocate(w, r, alloc, free, isAl, upd, minV)
 	ruleC07Never(w, r)
+	ruleTranslatorBytes(w, r, "C07", "R07.8")
 	ruleC07SEID(w, r)
 	ruleC07Reported(w, r, alloc)
 }
@@ -597,6 +599,21 @@ func ruleC07Never(w *World, r *Report) {
 			}
 		}
 		r.floor("R07.7 TEID release call sites", k, 4)
+		// which TEIDs: only those this agent chose for the PDR. A CP-chosen TEID is just a number; freeing
+		// it marks a TEID free that the generator may have handed to another live session.
+		rel := w.Fn("C07", "pfcpiface.releaseAllocatedTEIDs")
+		free := w.Fn("C07", "pfcpiface.(*FTEIDGenerator).FreeID")
+		m := 0
+		for _, c := range callsTo(rel, free) {
+			m++
+			si := c.(ssa.Instruction)
+			g := onlyVia(rel, si, func(a, b *ssa.BasicBlock) bool {
+				v, truth, ok := boolEdge(a, b)
+				return ok && truth && strings.HasSuffix(symOf(v).String(), "UPAllocateFteid")
+			})
+			r.check(g, "R07.7", w.FuncName(rel), "only TEIDs the agent chose for the PDR are given back", w.Pos(c.Pos()), "under pdr.UPAllocateFteid", "FreeID is reachable for a PDR whose TEID the control plane chose: ending that session frees a number that another live session may have been given by the generator, which then hands it out a second time")
+		}
+		r.floor("R07.7 FreeID calls in releaseAllocatedTEIDs", m, 1)
 		// in the deletion handler only after the datapath accepted the delete
 		h := w.Fn("C07", "pfcpiface.(*PFCPConn).handleSessionDeletionRequest")
 		rejected := w.ConstInt("C07", iePkg, "CauseRequestRejected")
